@@ -788,8 +788,8 @@ class _Namespaces(object):
         if not prefix:
             prefix = ''
         delrule = self.__findrule(prefix)
-        for i, rule in enumerate(filter(lambda r: r.type == r.NAMESPACE_RULE,
-                                        self.parentStyleSheet.cssRules)):
+        # deleteRule takes the index in cssRules, not among @namespace rules
+        for i, rule in enumerate(self.parentStyleSheet.cssRules):
             if rule == delrule:
                 self.parentStyleSheet.deleteRule(i)
                 return
